@@ -355,6 +355,7 @@ func c18(c *Ctx) {
 	c18TxDatabase(c)
 	c18EffectiveUpdates(c)
 	c18TokenExpiry(c)
+	c18PerMessageGate(c)
 	// ---- C18.4 SQL statements: readOnly() agrees with effects ------------------------------------------------------
 	c18SQLReadOnly(c)
 }
@@ -804,6 +805,76 @@ func c18EffectiveUpdates(c *Ctx) {
 		})
 	}
 	c.count("local_user_record_updates", n)
+}
+
+// c18PerMessageGate: a bidirectional stream outlives the authorisation decision made when it was opened: "deactivated
+// or re-permissioned sessions are refused" holds for a long-lived stream only if every received message passes the gate
+// again before it touches a database.
+func c18PerMessageGate(c *Ctx) {
+	r := "C18.1/gate-per-stream-message"
+	gate := callTo(srvT + "getDBFromCtx")
+	isDB := func(in ssa.Instruction) bool {
+		cc := callOf(in)
+		return cc != nil && strings.HasPrefix(calleeName(cc), "(pkg/database.DB).") && calleeName(cc) != "(pkg/database.DB).GetName" && calleeName(cc) != "(pkg/database.DB).MaxResultSize"
+	}
+	// callee that touches a database only after gating (on every path)
+	var gatesFirst func(f *ssa.Function, d int) (touches, gated bool)
+	gatesFirst = func(f *ssa.Function, d int) (bool, bool) {
+		if f == nil || len(f.Blocks) == 0 || d > 2 {
+			return false, true
+		}
+		touch := func(in ssa.Instruction) bool {
+			if isDB(in) {
+				return true
+			}
+			if cc := callOf(in); cc != nil {
+				if g := cc.StaticCallee(); g != nil && g.Pkg != nil && strings.HasSuffix(g.Pkg.Pkg.Path(), "pkg/server") {
+					t, ok := gatesFirst(g, d+1)
+					return t && !ok
+				}
+			}
+			return false
+		}
+		if len(sites(f, touch)) == 0 {
+			return false, true
+		}
+		q := &pathQ{fn: f, fromEntry: true, to: touch, via: gate}
+		return true, q.bypass() == nil
+	}
+	n := 0
+	for _, f := range c.allFns {
+		if !fnInPkgs(f, []string{"pkg/server"}) || len(f.Blocks) == 0 {
+			continue
+		}
+		recvs := sites(f, func(in ssa.Instruction) bool {
+			cc := callOf(in)
+			_, isCall := in.(*ssa.Call)
+			return isCall && cc != nil && cc.IsInvoke() && cc.Method.Name() == "Recv" && reaches(in.Block(), in.Block(), nil)
+		})
+		if len(recvs) == 0 {
+			continue
+		}
+		n++
+		touch := func(in ssa.Instruction) bool {
+			if isDB(in) {
+				return true
+			}
+			if cc := callOf(in); cc != nil {
+				if g := cc.StaticCallee(); g != nil && g.Pkg != nil && strings.HasSuffix(g.Pkg.Pkg.Path(), "pkg/server") {
+					t, ok := gatesFirst(g, 0)
+					return t && !ok
+				}
+			}
+			return false
+		}
+		q := &pathQ{fn: f, from: recvs, to: touch, via: gate}
+		w := q.bypass()
+		c.check(w == nil, r, fnName(f), c.pos(recvs[0].Pos()), "every message received on the stream passes getDBFromCtx (directly or in the callee) before a database is touched",
+			"after Recv() a database is used without passing the gate again: the permission check made when the stream was opened keeps authorising messages after the user was deactivated or re-permissioned: "+c.witnessStr(w))
+	}
+	if n < 1 {
+		c.undecided(r, "floor", "no handler with a Recv loop found (StreamExportTx confirmed by hand)")
+	}
 }
 
 // c18TokenExpiry: "expired ... sessions are refused": token authentication validates the expiry claim. The paseto
